@@ -2,7 +2,7 @@
    Statements only; the proofs are instances of the generic theorems of Eco/VLayerFacts.v
    (versions) and of Properties/Support/RangeC18.v over Eco/RangeCoreFacts.v (ranges).
 
-   VERSIONS, all 19 merged ecosystems, no restriction.  Every ecosystem's [parse] / [cmp] /
+   VERSIONS, all 20 ecosystems, no restriction.  Every ecosystem's [parse] / [cmp] /
    [show] (models of NewVersion / Compare / String) is an instance of Eco/VLayer.v: the input is
    trimmed, the structure ("core") is computed from the trimmed text alone, Compare reads only the
    core.  Per ecosystem:
@@ -17,18 +17,17 @@
    one proved for parsed values (alpine, gentoo) resp. within a pkgrel class (alpm); for maven it
    is Maven.VersionFacts.cmp_refl.  Nothing else is assumed.
 
-   RANGES, all 19 merged ecosystems, no restriction, stated on the string-level interface
+   RANGES, all 20 ecosystems, no restriction, stated on the string-level interface
    [Entry.r : rops] (r_show = String() of the accepted range, r_contains = Contains) for ARBITRARY
    version oracles vok / vcmp:
      C18_<eco>_range_show       r_show of an accepted input has the same trimmed form as the input;
      C18_<eco>_range_reparse    the printed text is accepted again and contains exactly the same
                                 versions (r_contains agrees for every probe, accepted or not);
      C18_<eco>_range_pad        padding changes neither acceptance nor any containment result.
-   conan lower-cases the range text before trimming; the statements hold unchanged.
+   conan lower-cases the range text before trimming; the statements hold unchanged.  gem's
+   range parser is RangeCore's with a custom Contains (Support/GemSupport.v).
    The model-level lemmas written with the models (npm, semver: re-parsing gives the identical
-   parsed range; hex, alpine: String() is the input itself) are restated at the end.
-
-   gem: added when its model is merged. *)
+   parsed range; hex, alpine: String() is the input itself) are restated at the end. *)
 
 From Verif.Base Require Import Bytes BytesFacts GoNum Ord.
 From Verif.Eco Require Import RangeCore RangeCoreFacts Iface VLayer VLayerFacts.
@@ -39,7 +38,8 @@ From Verif.Eco.Cargo Require Version VersionFacts Range RangeFacts Entry.
 From Verif.Eco.Composer Require Version VersionFacts Range RangeFacts Entry.
 From Verif.Eco.Conan Require Version VersionFacts Range RangeFacts Entry.
 From Verif.Eco.Cran Require Version VersionFacts Range Entry.
-From Verif.Eco.Debian Require Version VersionFacts Range RangeFacts Entry SpecFacts.
+From Verif.Eco.Debian Require Version VersionFacts Range RangeFacts Entry.
+From Verif.Eco.Gem Require Version VersionFacts Range RangeFacts Entry.
 From Verif.Eco.Gentoo Require Version VersionFacts Range RangeFacts Entry.
 From Verif.Eco.Github Require Version VersionFacts Range RangeFacts Entry.
 From Verif.Eco.Golang Require Version VersionFacts Range RangeFacts Entry.
@@ -50,8 +50,8 @@ From Verif.Eco.Npm Require Version VersionFacts Range RangeFacts Entry.
 From Verif.Eco.Nuget Require Version VersionFacts Range RangeFacts Entry.
 From Verif.Eco.Pypi Require Version VersionFacts Range RangeFacts Entry.
 From Verif.Eco.Rpm Require Version VersionFacts Range RangeFacts Entry.
-From Verif.Eco.Semver Require Version VersionFacts Range RangeFacts Entry SpecFacts.
-From Verif.Properties.Support Require SimpleRops RangeC18 VLayerMore.
+From Verif.Eco.Semver Require Version VersionFacts Range RangeFacts Entry.
+From Verif.Properties.Support Require SimpleRops RangeC18 VLayerMore GemSupport.
 
 
 (* ==================== versions ==================== *)
@@ -279,6 +279,34 @@ Theorem C18_debian_version_pad : forall p q s,
   end.
 Proof. exact (pad_invariant _ Debian.Version.parse_core Debian.Version.raw_orig). Qed.
 Print Assumptions C18_debian_version_pad.
+
+(* gem *)
+
+Theorem C18_gem_version_show : forall s v,
+  Gem.Version.parse s = Some v -> trim_space (Gem.Version.show v) = trim_space s.
+Proof. exact (show_trim _ Gem.Version.parse_core Gem.Version.raw_orig). Qed.
+Print Assumptions C18_gem_version_show.
+
+Theorem C18_gem_version_reparse : forall s v,
+  Gem.Version.parse s = Some v ->
+  exists v', Gem.Version.parse (Gem.Version.show v) = Some v' /\
+             Gem.Version.cmp v v' = Eq /\ Gem.Version.cmp v' v = Eq.
+Proof.
+  intros s v.
+  exact (reparse _ Gem.Version.parse_core Gem.Version.cmp_core Gem.Version.raw_orig s v
+           (tp_refl Gem.VersionFacts.cmp_core_tp)).
+Qed.
+Print Assumptions C18_gem_version_reparse.
+
+Theorem C18_gem_version_pad : forall p q s,
+  forallb is_space p = true -> forallb is_space q = true ->
+  match Gem.Version.parse s, Gem.Version.parse (p ++ s ++ q) with
+  | Some v, Some v' => v_core v = v_core v'
+  | None, None => True
+  | _, _ => False
+  end.
+Proof. exact (pad_invariant _ Gem.Version.parse_core Gem.Version.raw_orig). Qed.
+Print Assumptions C18_gem_version_pad.
 
 (* gentoo *)
 
@@ -774,6 +802,29 @@ Theorem C18_debian_range_pad :
 Proof. exact (RangeC18.shape_pad _ (RangeC18.simple_shape Debian.Range.cfg)). Qed.
 Print Assumptions C18_debian_range_pad.
 
+(* gem *)
+
+Theorem C18_gem_range_show : forall (vok : bytes -> bool) (s x : bytes),
+  r_show Gem.Entry.r vok s = Some x -> trim_space x = trim_space s.
+Proof. exact (RangeC18.shape_show_trim _ GemSupport.gem_shape). Qed.
+Print Assumptions C18_gem_range_show.
+
+Theorem C18_gem_range_reparse :
+  forall (vok : bytes -> bool) (vcmp : bytes -> bytes -> comparison) (s x : bytes),
+  r_show Gem.Entry.r vok s = Some x ->
+  r_show Gem.Entry.r vok x <> None /\
+  forall v, r_contains Gem.Entry.r vok vcmp x v = r_contains Gem.Entry.r vok vcmp s v.
+Proof. exact (RangeC18.shape_reparse _ GemSupport.gem_shape). Qed.
+Print Assumptions C18_gem_range_reparse.
+
+Theorem C18_gem_range_pad :
+  forall (vok : bytes -> bool) (vcmp : bytes -> bytes -> comparison) (p q s : bytes),
+  forallb is_space p = true -> forallb is_space q = true ->
+  (r_show Gem.Entry.r vok (p ++ s ++ q) = None <-> r_show Gem.Entry.r vok s = None) /\
+  forall v, r_contains Gem.Entry.r vok vcmp (p ++ s ++ q) v = r_contains Gem.Entry.r vok vcmp s v.
+Proof. exact (RangeC18.shape_pad _ GemSupport.gem_shape). Qed.
+Print Assumptions C18_gem_range_pad.
+
 (* gentoo *)
 
 Theorem C18_gentoo_range_show : forall (vok : bytes -> bool) (s x : bytes),
@@ -1087,4 +1138,4 @@ Theorem C18_semver_range_reparse_parsed :
 Proof. exact Semver.RangeFacts.range_reparse. Qed.
 Print Assumptions C18_semver_range_reparse_parsed.
 
-(* TODO, not proved: nothing for the 19 merged ecosystems.  gem: model not merged. *)
+(* TODO, not proved: nothing; all 20 ecosystems are covered. *)
